@@ -267,7 +267,7 @@ class Gen:
     # ---- malformed stream
     def malformed_fn(self):
         r = self.r
-        c = r.randrange(0, 26)
+        c = r.randrange(0, 28)
         ty = r.choice(PT)
         if c == 0:
             return self.new_fn([], [], nonfunc=r.choice(["nil", "int", "ptr", "struct", "nilfunc", "nilfunc1"]))
@@ -325,6 +325,14 @@ class Gen:
         if c == 24:  # a plain struct (no In/Out) as parameter and as result
             plain = self.st([self.field("A", u(ty)), self.field("B", u(r.choice(PT)))])
             return self.new_fn([plain] if r.random() < 0.5 else [], [plain])
+        if c in (26, 27):  # rejected only after a valid value-group parameter has been parsed (side effects first)
+            g = r.choice(["g", "h"])
+            soft = r.choice(["", ",soft"])
+            good = self.field("G", u(self.slice_of(ty)), {"group": g + soft})
+            if c == 26:
+                bad = self.field("B", u(r.choice(PT)), {"optional": r.choice(["maybe", "2"])})
+                return self.new_fn([self.st([self.in_field(), good, bad])], [u(r.choice(PT))])
+            return self.new_fn([self.st([self.in_field(), good]), self.st([self.out_field(), self.field("A", u(ty))])], [u(r.choice(PT))])
         # c == 25: group tag on a nested In object field / name tag on a nested object (ignored by dig)
         inner = self.st([self.in_field(), self.field("X", u(ty))])
         return self.new_fn([self.st([self.in_field(), self.field("O", inner, {"name": "zz", "optional": "maybe"})])], [u(r.choice(PT))])
